@@ -97,6 +97,21 @@ CLAIMS['C15'] = dict(
          'and rejection loops not covered; u=0 corner of log excluded.',
     technique=TECH_B + ' (real-arithmetic mode; IEEE mode for UniformRealDistribution)', design='3 (C15)')
 
+CLAIMS['C06'] = dict(
+    text='State-initialisation half of the property as non-interference obligations: the RNG state after operator=(Initializer)/reseed_rng is a function of '
+         '(seed, event, slot, slot count) only (two arbitrary previous states give the same result; stream id ignored); InitTracksExecutor overwrites or resets '
+         'every per-slot field of the slot it initialises (previous contents symbolic).',
+    note='Re-indexing policies (std::sort/partition over track_slots), action timing / status checker options, CoreState::reset and the frame conditions of '
+         'unharnessed physics kernels are outside: bit-identical histories are supported only as far as these obligations go.',
+    technique=TECH_B, design='3 (C06)')
+CLAIMS['C08'] = dict(
+    text='The real FieldPropagator loop executed against contract stubs for driver and geometry in exact arithmetic: geometry used per its contract, 0 < distance '
+         '<= step, looping only with the substep budget spent, boundary flag == geometry state via exactly one move_to_boundary, |p| unchanged; LinearPropagator '
+         'and FieldUtils contracts.',
+    note='max_substeps 1 (quick) / 2 (thorough), retry branch followed 3 times; two nonlinear queries of C08.1 may stay undecided in the quick budget (listed as '
+         'not discharged); FieldDriver, steppers and helix accuracy are outside.',
+    technique=TECH_B + ' (real-arithmetic mode)', design='3 (C08)')
+
 NOT_APPLICABLE = {
     'C07': 'quantifies over interleavings of host threads driving whole Steppers over shared_ptr/std::vector/OpenMP state: no installed engine '
            'models concurrent libstdc++ (CBMC C++ front end cannot parse it; own IR executors are single-threaded). See DESIGN.md C07.',
